@@ -1,7 +1,7 @@
 from ..run import Prop
 from .. import gen_edit, core
 from ..core import rec_fields, unhex, hexs
-from .c06 import parse_doc_items, nb
+from .c06 import parse_doc_items, parse_ldoc_enc, nb
 
 def comment_lines(text):
     return [l for l in text.split("\n") if l.startswith("#")]
@@ -74,6 +74,11 @@ class EditProp(Prop):
         if "init" not in r: return "no record"
         text0, items0, pt0 = r["init"].split("~", 2)
         doc = parse_doc_items(items0)
+        # a document built from name/value pairs reports exactly those pairs
+        if fields[0].startswith("F:") and doc != parse_ldoc_enc(fields[0][2:]):
+            return "the paragraph built from name/value pairs does not report those pairs"
+        if fields[0] == "N" and doc != []:
+            return "the new document is not empty"
         text = unhex(text0)
         ptx = [unhex(x) for x in pt0.split(".")[:-1]]
         ops = [o for o in fields[1].split(" ") if o and o != "-"]
